@@ -74,7 +74,7 @@ DENSITY
  850 1000 1.0 /
 ROCK
  200 4.0e-5 /
-REGIONS
+{props_extra}REGIONS
 FIPNUM
  {h1}*1 {h2}*2 /
 SOLUTION
@@ -91,7 +91,7 @@ MONTHS = ["JAN", "FEB", "MAR", "APR", "MAY", "JUN", "JUL", "AUG", "SEP", "OCT", 
 
 
 def prelude(unit="METRIC", runspec_extra="", dims=None, phases=("OIL", "WATER", "GAS"), grid_extra="", solution=None,
-            schedule_head=""):
+            schedule_head="", props_extra=""):
     """the fixed RUNSPEC..SUMMARY part.  Defaults give the 4x4x3 three-phase model used by C03/C04/C11; C05 varies the
     grid size, the phases, adds ACTNUM (grid_extra), replaces EQUIL by RESTART (solution) and puts SKIPREST / RPTRST
     at the top of SCHEDULE (schedule_head)."""
@@ -99,7 +99,8 @@ def prelude(unit="METRIC", runspec_extra="", dims=None, phases=("OIL", "WATER", 
     n = nx * ny * nz
     return PRELUDE.format(unit=unit, runspec_extra=runspec_extra, nx=nx, ny=ny, nz=nz, n=n, nxy=nx * ny,
                           phases="".join(p + "\n" for p in phases), grid_extra=grid_extra, h1=n // 2, h2=n - n // 2,
-                          solution=EQUIL_TEXT if solution is None else solution, schedule_head=schedule_head)
+                          solution=EQUIL_TEXT if solution is None else solution, schedule_head=schedule_head,
+                          props_extra=props_extra)
 
 
 class Model:
@@ -373,8 +374,15 @@ def kw_wtest(draw, m):
 @st.composite
 def kw_wecon(draw, m):
     w = draw(st.sampled_from(_wells(m, "P") or sorted(m.wells)))
-    return "WECON\n '%s' %s %s %s 2* '%s' '%s' /\n/\n" % (w, fnum(draw(rate)), fnum(draw(rate)), fnum(draw(frac)),
-                                                         draw(st.sampled_from(["NONE", "CON", "+CON", "WELL"])), draw(st.sampled_from(["YES", "NO"])))
+    # items 9..12 (follow-on well, quantity, secondary water-cut limit and its workover) in a third of the records; the
+    # secondary workover defaults to the primary one, so an explicit 'NONE' next to a real primary procedure matters
+    tail = ""
+    if draw(st.integers(0, 2)) == 0:
+        tail = " 1* '%s' %s %s" % (draw(st.sampled_from(["RATE", "POTN"])), fnum(draw(st.sampled_from([0.95, 0.5, 0]))),
+                                   draw(st.sampled_from(["'NONE'", "'NONE'", "'CON'", "'WELL'", "1*", "'+CON'", "'PLUG'"])))
+    return "WECON\n '%s' %s %s %s 2* '%s' '%s'%s /\n/\n" % (w, fnum(draw(rate)), fnum(draw(rate)), fnum(draw(frac)),
+                                                           draw(st.sampled_from(["NONE", "CON", "+CON", "WELL", "PLUG"])),
+                                                           draw(st.sampled_from(["YES", "NO"])), tail)
 
 
 @st.composite
@@ -764,7 +772,48 @@ def kw_actionextra(draw, m):
     return draw(st.sampled_from(opts))
 
 
+@st.composite
+def kw_rare(draw, m):
+    """keywords with a SCHEDULE handler that hardly any deck uses (injected-fluid properties, filter cake, skin, dissolution
+    rate limits, grid multipliers in SCHEDULE, boundary conditions ...); each entry is accepted by the fixed model"""
+    opts = ["FBHPDEF\n %s %s /\n" % (draw(st.sampled_from(["5", "1*"])), draw(st.sampled_from(["500", "1*"]))),
+            "DRSDT\n %s /\n" % draw(st.sampled_from(["0.001", "0"])), "DRSDTR\n 0.001 /\n", "DRVDTR\n 0.002 /\n", "DRSDTCON\n 0.04 /\n",
+            "BOX\n 1 2 1 2 1 1 /\n%s\n 4*%s /\nENDBOX\n" % (draw(st.sampled_from(["MULTX", "MULTY", "MULTZ", "MULTX-", "MULTY-", "MULTZ-"])),
+                                                           draw(st.sampled_from(["0.5", "0", "2"]))),
+            "MULTPV\n %d*1.5 /\n" % (m.nx * m.ny * m.nz),
+            "BCPROP\n 1 RATE WATER %s /\n/\n" % draw(st.sampled_from(["1.0", "0"])),
+            "SOURCE\n 1 1 1 %s 0.1 /\n/\n" % draw(st.sampled_from(["WATER", "OIL", "GAS"])),
+            "AQUFLUX\n 1 0.01 /\n/\n"]
+    ws = sorted(w for w, W in m.wells.items() if W["conns"])
+    if ws:
+        w = draw(st.sampled_from(ws))
+        W = m.wells[w]
+        c = W["conns"][0]
+        opts += ["CSKIN\n '%s' %d %d %d %d %s /\n/\n" % (w, c[0], c[1], c[2], c[2], draw(st.sampled_from(["5.5", "-1", "0"]))),
+                 "CSKIN\n '%s' 4* %s /\n/\n" % (w, draw(st.sampled_from(["2.5", "0"]))),
+                 "COMPORD\n '%s' '%s' /\n/\n" % (draw(st.sampled_from([w, "*"])), draw(st.sampled_from(["INPUT", "DEPTH", "TRACK"]))),
+                 "WWPAVE\n '%s' 0.5 %s '%s' '%s' /\n/\n" % (w, draw(st.sampled_from(["0.5", "1"])), draw(st.sampled_from(["WELL", "RES"])),
+                                                           draw(st.sampled_from(["ALL", "OPEN"])))]
+        if W["kind"] == "P":
+            opts += ["WLIFTOPT\n '%s' '%s' %s 1.01 /\n/\n" % (w, draw(st.sampled_from(["YES", "NO"])), draw(st.sampled_from(["1000", "1*"]))),
+                     "LIFTOPT\n 12500 5e-3 0.0 'YES' /\nWLIFTOPT\n '%s' 'YES' 1000 1.01 1* 0.5 'YES' /\n/\n" % w]
+        else:
+            conc = draw(st.sampled_from(["35", "0", "0.5"]))
+            opts += ["WSALT\n '%s' %s /\n/\n" % (w, conc), "WFOAM\n '%s' %s /\n/\n" % (w, conc),
+                     "WPOLYMER\n '%s' %s 0.5 /\n/\n" % (w, conc), "WMICP\n '%s' 0.1 0.2 %s /\n/\n" % (w, conc),
+                     "WINJFCNC\n '%s' %s /\n/\n" % (w, conc), "WSKPTAB\n '%s' 1 1 /\n/\n" % w, "WPMITAB\n '%s' 1 /\n/\n" % w,
+                     "WTRACER\n '%s' 'T1' %s /\n/\n" % (w, conc),
+                     "WINJDAM\n '%s' '%s' 100 0.3 %s 1* /\n/\n" % (w, draw(st.sampled_from(["RADIAL", "LINEAR", "LINRAD"])),
+                                                                  draw(st.sampled_from(["1*", "0.2"]))),
+                     "WINJCLN\n '%s' %s /\n/\n" % (w, draw(st.sampled_from(["0.5", "1*", "0"]))),
+                     "WINJCLN\n '%s' 0.25 %d %d %d /\n/\n" % (w, c[0], c[1], c[2])]
+            if W.get("injtype") == "GAS":
+                opts += ["WSOLVENT\n '%s' %s /\n/\n" % (w, draw(st.sampled_from(["0.5", "0", "1"])))]
+    return draw(st.sampled_from(opts))
+
+
 EXTRA_GENERATORS = {
+    "rare": (kw_rare, lambda m: True),
     "actionextra": (kw_actionextra, lambda m: True),
     "wellextra": (kw_wellextra, lambda m: bool(_wells(m))),
     "groupextra": (kw_groupextra, lambda m: len(m.groups) > 1),
@@ -893,7 +942,18 @@ def gen_static(draw):
         sol.append("RPTRST\n %s /\n" % " ".join(mn))
     elif draw(st.integers(0, 3)) == 0:
         sol.append("%s\n %s /\n" % (draw(st.sampled_from(["RPTRST", "RPTSOL"])), draw(int_controls())))
-    return {"runspec_extra": "".join(rs), "grid_extra": "".join(grid), "solution": "".join(sol)}
+    # tables whose C++ type carries more than the columns (reference values, a direction flag)
+    props = []
+    if draw(st.integers(0, 3)) == 0:
+        rs.append("POLYMER\n")
+        props.append("PLYSHLOG\n %s /\n 1e-7 1.0\n 1.0 1.2\n 1000 2.4 /\n" % draw(st.sampled_from(
+            ["1.0", "1.0 3.0", "1.0 1* 80.0", "1.0 3.0 80.0", "0.5 1* 45.5"])))
+    if draw(st.integers(0, 3)) == 0:
+        direc = False        # (RKTRMDIR, which makes the table directional, is refused by the library)
+        rs.append("ROCKCOMP\n 'REVERS' 1 /\n" + ("RKTRMDIR\n" if direc else ""))
+        props.append("ROCKTAB\n" + "".join(" %s %s %s\n" % (p_, pv, tr if direc else tr.split()[0]) for p_, pv, tr in
+                                           [("100", "0.9", "0.8 0.7 0.6"), ("200", "1.0", "1.0 1.0 1.0"), ("300", "1.05", "1.1 1.2 1.3")]).rstrip("\n") + " /\n")
+    return {"runspec_extra": "".join(rs), "grid_extra": "".join(grid), "solution": "".join(sol), "props_extra": "".join(props)}
 
 
 def render(blocks, unit="METRIC", final_kws=None, static=None):
